@@ -788,6 +788,78 @@ def same_path_rewritten(run, scratch, seed):
             t.join(timeout=5)
 
 
+def scale_down(run, scratch, seed):
+    """A pool of three workers on one shared transport; after a first batch ONE worker is retired (its own stop event:
+    scale-down, or a worker that died) and the orchestrator keeps being used.  Every Future of the second batch must
+    still complete with its own job's result."""
+    import threading
+
+    from semantiva.context_processors.context_types import ContextType
+    from semantiva.execution.executor.executor import SequentialSemantivaExecutor
+    from semantiva.execution.job_queue.queue_orchestrator import QueueSemantivaOrchestrator
+    from semantiva.execution.job_queue.worker import worker_loop
+    from semantiva.execution.transport.in_memory import InMemorySemantivaTransport
+    from vlib import account, gen, jobq
+
+    transport = InMemorySemantivaTransport()
+    orch = QueueSemantivaOrchestrator(transport=transport, stop_event=None, logger=jobq.make_logger("c15.scale.master"))
+    orch.job_queue = jobq.TapQueue(jobq.Monitor(), 0.005)
+    master = threading.Thread(target=orch.run_forever, daemon=True, name="c15-sd-master")
+    stops = [threading.Event() for _ in range(3)]
+    workers = [threading.Thread(target=worker_loop, args=(i, transport, SequentialSemantivaExecutor(), stops[i], jobq.make_logger(f"c15.scale.w{i}"), 0.002),
+                                daemon=True, name=f"c15-sd-w{i}") for i in range(3)]
+    master.start()
+    for t in workers:
+        t.start()
+    rng = random.Random(seed)
+    retired = rng.randrange(3)
+
+    def batch(tag, n):
+        futs = []
+        for j in range(n):
+            v, f = 2.0 + j + rng.choice([0.0, 0.5]), 1.5 + 0.25 * j
+            path = os.path.join(scratch, f"sd_{tag}_{j}.yaml")
+            with open(path, "w", encoding="utf-8") as fh:
+                fh.write(gen.to_yaml([{"processor": "VSrc", "parameters": {"value": v}}, {"processor": "VMul", "parameters": {"factor": f}}]))
+            futs.append((j, v * f, orch.enqueue(path, data=None, context=ContextType({}), return_future=True)))
+        for j, expected, fut in futs:
+            try:
+                data, _ctx = fut.result(timeout=WATCHDOG_S / 4)
+            except TimeoutError:
+                if not master.is_alive():
+                    run.violation("future_never_completes_after_a_worker_was_retired",
+                                  f"batch {tag}: job {j} never completed: the master thread died after worker {retired} of 3 was retired "
+                                  f"(surviving workers alive: {[t.is_alive() for k, t in enumerate(workers) if k != retired]})",
+                                  {"mode": "scale_down", "batch": tag, "job": j, "retired_worker": retired})
+                else:
+                    run.note_inconclusive(f"scale-down scenario: watchdog fired in batch {tag} with the master alive")
+                return False
+            except Exception as exc:  # noqa: BLE001
+                run.violation("wrong_result_after_a_worker_was_retired", f"batch {tag}: job {j} failed: {type(exc).__name__}: {exc}",
+                              {"mode": "scale_down", "batch": tag, "job": j, "retired_worker": retired})
+                return False
+            got = account.plain(data)
+            run.count("scale_down_jobs")
+            if not account.close(got, expected):
+                run.violation("wrong_result_after_a_worker_was_retired", f"batch {tag}: job {j} returned {got!r}, its pipeline returns {expected!r}",
+                              {"mode": "scale_down", "batch": tag, "job": j, "retired_worker": retired})
+                return False
+        return True
+
+    try:
+        if batch("a", 6):
+            stops[retired].set()
+            workers[retired].join(timeout=5)
+            run.count("scale_down_worker_retired", 0 if workers[retired].is_alive() else 1)
+            batch("b", 4)
+    finally:
+        for e in stops:
+            e.set()
+        orch.stop()
+        for t in [master] + workers:
+            t.join(timeout=5)
+
+
 def run(run):
     boot.boot()
     from vlib import gen, jobq
@@ -802,6 +874,10 @@ def run(run):
         same_path_rewritten(run, scratch, seed)
     except Exception as exc:  # noqa: BLE001
         run.note_inconclusive(f"same-path scenario failed: {type(exc).__name__}: {exc}")
+    try:
+        scale_down(run, scratch, seed)
+    except Exception as exc:  # noqa: BLE001
+        run.note_inconclusive(f"scale-down scenario failed: {type(exc).__name__}: {exc}")
     def systematic_pass(scratch):
         # runs AFTER the perturbation-based batches: its few thousand executions leave thousands of generated classes behind
         # (finding F17), which slows every later Pipeline construction in this process - the status-backlog batch needs the
@@ -952,6 +1028,15 @@ def replay(run, witness):
         from vlib import jobsched
 
         jobsched.replay(run, witness)
+        return
+    if witness.get("mode") == "scale_down":
+        scratch = tempfile.mkdtemp(prefix="verif-c15-")
+        try:
+            scale_down(run, scratch, run.seed * 1000)
+            run.case("scale-down", True, sample={"mode": "scale_down"})
+            run.case("replay-second-slot", True)
+        finally:
+            shutil.rmtree(scratch, ignore_errors=True)
         return
     if witness.get("mode") == "same_path":
         scratch = tempfile.mkdtemp(prefix="verif-c15-")
